@@ -770,12 +770,22 @@ class Exits:
                 sub = Exits(self.prog, _inl(self.prog, c, sinks=self.sinks.pattern if self.sinks else None), effects=self.effects, sinks=self.sinks.pattern if self.sinks else None,
                             cap_env=self.capture_env(st.rhs), closures=self.closures, guarded=self.guarded)
                 outer = sorted(filter(None, {self.branch_atom(a, s) for (a, s) in self.closure_edges(bid)}))
-                for e in sub.census(depth + 1):
+                subex = sub.census(depth + 1)
+                own = [e for e in subex if not e['label'].startswith('in closure: ') and not e.get('effect')]
+                # a predicate written as a two-armed match is the same value as the test itself (cf. closure_desc)
+                if len(own) == 2 and {e['label'] for e in own} == {'true', 'false'} and all(len(e['atoms']) == 1 for e in own):
+                    t = [e for e in own if e['label'] == 'true'][0]
+                    merged = dict(t)
+                    merged.update({'label': '(%s)' % t['atoms'][0], 'cls': 'exact', 'trigger': [], 'atoms': [], 'full': []})
+                    subex = [e for e in subex if e not in own] + [merged]
+                for e in subex:
                     if e.get('effect') or self.closures:
                         e2 = dict(e)
                         e2['label'] = 'in closure: ' + e['label'] if not e['label'].startswith('in closure: ') else e['label']
-                        e2['full'] = sorted(set(e['full']) | set(outer))
-                        e2['atoms'] = sorted(set(e['atoms']) | set(outer))
+                        if e.get('effect'):
+                            # what a closure DOES also depends on the conditions under which the enclosing code runs it
+                            e2['full'] = sorted(set(e['full']) | set(outer))
+                            e2['atoms'] = sorted(set(e['atoms']) | set(outer))
                         e2['span'] = e['span']
                         out.append(e2)
         return out
